@@ -40,6 +40,7 @@ RULE_KINDS = {
     "rfc1982/add-value-sampled": "bounded", "rfc1982/add-greater-sampled": "bounded", "rfc1982/add-refuses-large-sampled": "bounded",
     "rfc1982/ring-constants": "bounded",              # the constructor evaluated for widths 1..64, 96, 128
     "rfc1982/refuses-other-width": "bounded",
+    "rfc1982/add-plain-int": "bounded",
 }
 ASSUMPTIONS = [
     "hash() of an int is modelled as CPython on a 64-bit platform does it (reduction modulo sys.hash_info.modulus == 2**61 - 1, -1 mapped to -2)",
@@ -124,6 +125,7 @@ class _Op:
         return f"<operator.{self.name}>"
 
 
+_BUILTIN_TYPES = {"int": int, "float": float, "bool": bool, "str": str, "bytes": bytes, "tuple": tuple, "object": object, "numbers.Integral": int, "Integral": int}
 _OP_CMP = {"lt": ast.Lt, "le": ast.LtE, "gt": ast.Gt, "ge": ast.GtE, "eq": ast.Eq, "ne": ast.NotEq, "is_": ast.Is, "is_not": ast.IsNot}
 _OP_BIN = {"add": ast.Add, "sub": ast.Sub, "mod": ast.Mod, "mul": ast.Mult, "floordiv": ast.FloorDiv, "truediv": ast.Div, "pow": ast.Pow, "lshift": ast.LShift,
            "rshift": ast.RShift, "and_": ast.BitAnd, "or_": ast.BitOr, "xor": ast.BitXor}
@@ -541,10 +543,19 @@ class Interp:
         # builtins
         if fname == "isinstance" and len(n.args) == 2 and not n.keywords:
             v = self._expr(n.args[0], env)
-            c = self._expr(n.args[1], env)
-            if c is not self.classref:
-                raise _Unsupported("isinstance against " + src(n.args[1]))
-            return isinstance(v, _Obj)
+            spec = n.args[1]
+            for t in (spec.elts if isinstance(spec, ast.Tuple) else [spec]):
+                tn = dotted(t) or ""
+                if tn in _BUILTIN_TYPES and tn not in env:
+                    if not isinstance(v, (_Obj, _Fn, _Op, _ClassRef, _NotImpl)) and isinstance(v, _BUILTIN_TYPES[tn]):
+                        return True
+                    continue
+                c = self._expr(t, env)
+                if c is not self.classref:
+                    raise _Unsupported("isinstance against " + src(t))
+                if isinstance(v, _Obj):
+                    return True
+            return False
         args = [self._expr(a, env) for a in n.args]
         kw = {k.arg: self._expr(k.value, env) for k in n.keywords}
         if fname == "int" and len(args) == 1 and not kw:
@@ -1027,6 +1038,31 @@ def check(ctx):
             bad = [o for o in outcomes if o]
             ctx.check(not bad, rule, f"{Q}.__add__ | {region}", (bad[0] + f" ({len(bad)} of {len(outcomes)} evaluated cases disagree)") if bad else "",
                       detail=f"{len(outcomes)} cases evaluated")
+
+    # ---- plain-integer addends: refused, or - where an implementation accepts them - only inside 0 .. 2^(bits-1)-1 and with the right sum ---------
+    with ctx.section("plain integer addends"):
+        bad_int: List[str] = []
+        n_int = 0
+        for bits in (3, 8, 32, 64):
+            m = 1 << bits
+            h = m >> 1
+            for s_ in (0, 5 % m, m - 1):
+                kind, x = _run(lambda: ip.construct(s_, bits))
+                if kind != "value":
+                    continue
+                for n in (-m + 1, -1, 0, 1, h - 1, h, m - 1, m, m + 1, 2 * m + 1, 3 * m + h - 1):
+                    n_int += 1
+                    kind, got = _run(lambda: ip._arith(ast.Add(), x, n))
+                    refused = kind == "raised" or got is NOTIMPL
+                    if refused:
+                        continue
+                    if not (0 <= n <= h - 1):
+                        bad_int.append(f"SerialNumber({s_}, {bits}) + {n} is accepted ({got!r}) although the addend is outside 0 .. 2^(bits-1)-1 = {h - 1}: the range check sees only "
+                                       "its residue modulo 2^bits")
+                    elif not (isinstance(got, _Obj) and got.fields.get("_number") == (s_ + n) % m and got.fields.get("_serialBits") == bits):
+                        bad_int.append(f"SerialNumber({s_}, {bits}) + {n} = {got!r}, expected ({s_}+{n}) mod 2^{bits} in the same width")
+        ctx.check(not bad_int, "rfc1982/add-plain-int", f"{Q}.__add__ | <plain integer addends>", (bad_int[0] + f" ({len(bad_int)} of {n_int} cases)") if bad_int else "",
+                  detail=f"{n_int} (serial, addend) pairs: every addend is either refused or lies in the defined range and gives the right sum")
 
     # ---- operands of another width / type are refused ------------------------------------------------------------------------
     with ctx.section("refusal of other widths/types"):
